@@ -21,7 +21,7 @@ def main():
         rows.append(f)
     byid = {r[0]: r for r in rows}
     out = []
-    rounds = {"m": 1, "x": 2, "y": 3, "z": 4, "w": 5}
+    rounds = {"m": 1, "x": 2, "y": 3, "z": 4, "w": 5, "v": 6}
     stats = {1: [0, 0], 2: [0, 0], 3: [0, 0], 4: [0, 0]}
     lines = []
     for sid in sorted(os.listdir(os.path.join(HERE, "seeded"))):
